@@ -139,6 +139,7 @@ Proof.
   - destruct (nth_error (sems s) i) as [[[|] o [| | |] t]|]; try discriminate;
       destruct (nth_error (procs s) o) as [[[|] h]|]; try discriminate; cbn in H; try discriminate;
       inversion H; subst; cbn [sems]; (apply inv2_upd; [exact I | reflexivity]).
+  - destruct (nth_error (procs s) p) as [[[|] h]|]; try discriminate. cbn in H. inversion H; subst; exact I.
 Qed.
 
 Theorem step_inv s e s' : Inv s -> Inv2 s -> step s e = Some s' -> Inv s'.
@@ -274,6 +275,8 @@ Proof.
     + intros j y Hj. destruct (Nat.eq_dec i j) as [->|Hne].
       * rewrite (nth_upd_same _ _ _ _ Heqo) in Hj. inversion Hj; subst y. cbn. apply (It j _ Heqo).
       * rewrite nth_upd_other in Hj by assumption. eauto.
+  - (* Bootstrap *) unfold step in H. destruct (nth_error (procs s) p) as [[[|] h]|]; try discriminate. cbn in H.
+    inversion H; subst. constructor; auto.
 Qed.
 Theorem reachable_inv12 s : reachable s -> Inv s /\ Inv2 s.
 Proof.
@@ -344,6 +347,7 @@ Proof.
     destruct (nth_error (procs s) o) as [[[|] h]|]; try discriminate. inversion H; subst. split; auto.
   - destruct (nth_error (sems s) i) as [[[|] o [| | |] tr0]|]; try discriminate;
       destruct (nth_error (procs s) o) as [[[|] h]|]; try discriminate; cbn in H; try discriminate; inversion H; subst; split; auto.
+  - destruct (nth_error (procs s) p) as [[[|] h]|]; try discriminate. cbn in H. inversion H; subst. split; auto.
 Qed.
 Theorem single_tracker es : forall s s', single s -> no_tracker_kill es = true -> run s es = Some s' -> single s'.
 Proof.
